@@ -175,7 +175,7 @@ CHECKS["C06"] = {
 
 CHECKS["C13"] = {
     "prepare": probes.prepare,
-    "assumptions": CHECKS["C06"]["assumptions"] + ["deferred fragments of the families contain only resolver-backed fields that are not also selected outside the fragment"],
+    "assumptions": CHECKS["C06"]["assumptions"] + ["one family selects a field plainly and again inside deferred fragments: its groups hold nullable fields only (which group such a field belongs to when a non-null sibling fails is not settled by the property)"],
     "harnesses": [
         {"probe": "core", "harness": "Harness_C13_defer", "setup": "Setup_C13_defer", "reach": ["c13.compared", "c13.incremental"], "workers": 12, "sched_confirm": True,
          "configs_quick": ["single"], "configs_thorough": ["single", "follow", "wl2"], "map_permute": 3,
@@ -299,8 +299,8 @@ CHECKS["C05"]["harnesses"].append(
 
 CHECKS["C15"]["harnesses"].append(
     dict(_HTTP, harness="Harness_C15_server", setup="Setup_C15_server", reach=["c15.server"], workers=8,
-         quick={"params": {"hist": 2}, "sample_models": 40, "sample_every": 5}, thorough={"params": {"hist": 3}, "sample_models": 60, "sample_every": 47, "workers": 14},
-         what="histories of 2 [3] HTTP requests through one Server (POST/GET transports with the recycled parameter object, APQ extension, executor) over 7 request kinds x 2 texts incl. bodies that fail decoding after query/extensions were read, against the model hash -> text"))
+         quick={"params": {"hist": 2}, "sample_models": 40, "sample_every": 5}, thorough={"params": {"hist": 3, "texts": 5}, "sample_models": 60, "sample_every": 47, "workers": 14},
+         what="histories of 2 [3, over the first 5 texts] HTTP requests through one Server (POST/GET transports with the recycled parameter object, APQ extension, executor) over 7 request kinds x 2 texts incl. bodies that fail decoding after query/extensions were read, against the model hash -> text"))
 
 CHECKS["C14"]["harnesses"].append(
     {"pkg": "graphql/handler/extension", "harness": "Harness_C14_variables", "setup": "Setup_C14_walk", "reach": ["c14.vars.accepted", "c14.vars.rejected"], "workers": 6,
